@@ -33,6 +33,31 @@ def params_ok(t, vkp, alphap):
             ((vkp(strip_newtype_fields(rv[2][0])) and ge(rv[2][1])) or (vkp(strip_newtype_fields(rv[2][1])) and ge(rv[2][0]))))
 
 
+def randomized_public_package(ctx):
+    P = ctx.prog
+    f = ctx.anchor("<frost_core::keys::PublicKeyPackage<C> as frost_rerandomized::Randomize<C>>::randomize")
+    if f:
+        ts = ret_terms(P, f)
+        good = len(ts) == 1
+        if good:
+            p = ts[0]
+            vs = get_field(p, "verifying_shares")
+            good = is_call(vs, name="collect") and is_call(vs[2][0], name="map") and is_call(vs[2][0][2][0], name="iter") and \
+                fld(arg(1), "verifying_shares")(vs[2][0][2][0][2][0]) and vs[2][0][2][1][0] == "closure"
+            if good:
+                cf = P.fns.get(vs[2][0][2][1][1])
+                ct = TermCx(P, cf).local(0) if cf else None
+                val = unwrap_newtypes(ct[4][1][1]) if ct and ct[0] == "agg" else ("x",)
+                good = (ct is not None and ct[4][0][1] == ("field", ("arg", 2), None, "0") and is_call(val, name="add")
+                        and any(strip_newtype_fields(x) == ("field", ("arg", 2), None, "1") for x in val[2])
+                        and any(is_field(x, "RandomizedParams", "randomizer_element") for x in val[2]))
+            good = good and fld(arg(2), "randomized_verifying_key")(get_field(p, "verifying_key")) and fld(arg(1), "min_signers")(get_field(p, "min_signers"))
+        ctx.check(good and {k for k in adaptor_inventory(f) if k not in LOOKUPS} == set(), "AGREE", f.key,
+                  "every Y_i+G*alpha, vk', threshold kept",
+                  "the randomized public key package must shift every verifying share by the randomizer element, carry the "
+                  "randomized group key and keep the threshold", f.loc)
+
+
 def run(ctx):
     ctx.decided = ("the randomizer is H(seed || encode(commitments)) of the given seed and of every commitment entry; the "
                    "seed returned to the coordinator is the buffer that was hashed; coordinator and participants derive "
@@ -103,27 +128,7 @@ def run(ctx):
             ctx.check(fld(arg(2), "randomized_verifying_key")(get_field(kp, "verifying_key")) and fld(arg(1), "identifier")(get_field(kp, "identifier"))
                       and fld(arg(1), "min_signers")(get_field(kp, "min_signers")), "COPY", f.key, "vk',identifier,threshold",
                       "randomized key package must carry the randomized group key and keep identifier and threshold", f.loc)
-    f = ctx.anchor("<frost_core::keys::PublicKeyPackage<C> as frost_rerandomized::Randomize<C>>::randomize")
-    if f:
-        ts = ret_terms(P, f)
-        good = len(ts) == 1
-        if good:
-            p = ts[0]
-            vs = get_field(p, "verifying_shares")
-            good = is_call(vs, name="collect") and is_call(vs[2][0], name="map") and is_call(vs[2][0][2][0], name="iter") and \
-                fld(arg(1), "verifying_shares")(vs[2][0][2][0][2][0]) and vs[2][0][2][1][0] == "closure"
-            if good:
-                cf = P.fns.get(vs[2][0][2][1][1])
-                ct = TermCx(P, cf).local(0) if cf else None
-                val = unwrap_newtypes(ct[4][1][1]) if ct and ct[0] == "agg" else ("x",)
-                good = (ct is not None and ct[4][0][1] == ("field", ("arg", 2), None, "0") and is_call(val, name="add")
-                        and any(strip_newtype_fields(x) == ("field", ("arg", 2), None, "1") for x in val[2])
-                        and any(is_field(x, "RandomizedParams", "randomizer_element") for x in val[2]))
-            good = good and fld(arg(2), "randomized_verifying_key")(get_field(p, "verifying_key")) and fld(arg(1), "min_signers")(get_field(p, "min_signers"))
-        ctx.check(good and {k for k in adaptor_inventory(f) if k not in LOOKUPS} == set(), "AGREE", f.key,
-                  "every Y_i+G*alpha, vk', threshold kept",
-                  "the randomized public key package must shift every verifying share by the randomizer element, carry the "
-                  "randomized group key and keep the threshold", f.loc)
+    randomized_public_package(ctx)
     # wrappers delegate to the core
     rkp = lambda params: (lambda t: t[0] == "ok" and is_call(t[1], name="randomize") and t[1][2][0] == ("arg", 3) and params(t[1][2][1]))
     f = ctx.anchor(RR + "sign_with_randomizer_seed")
